@@ -18179,6 +18179,16 @@ int cg_rind_write(const int * RindData)
      /* verify input */
     if (cgi_check_mode(cg->filename, cg->mode, CG_MODE_WRITE)) return CG_ERROR;
 
+     /* Writing rind planes would invalidate the dimensions of existing arrays:
+        refused before anything is changed */
+    ier = cg_narrays(&narrays);
+    if (ier == CG_OK && narrays > 0) {
+        cgi_error("Writing rind planes invalidates dimensions of existing "
+                  "array(s).");
+        return CG_ERROR;
+    }
+    ier = 0;
+
     rind = cgi_rind_address(CG_MODE_WRITE, &ier);
     if (rind==0) return ier;
 
@@ -18194,15 +18204,6 @@ int cg_rind_write(const int * RindData)
      /* save data in file & if different from default (6*0) */
     if (cgi_posit_id(&posit_id)) return CG_ERROR;
     if (cgi_write_rind(posit_id, rind, index_dim)) return CG_ERROR;
-
-     /* Writing rind planes invalidates dimensions of existing arrays.  The rind
-        planes are still written but an error is returned */
-    ier = cg_narrays(&narrays);
-    if (ier == CG_OK && narrays > 0) {
-        cgi_error("Writing rind planes invalidates dimensions of existing "
-                  "array(s).");
-        return CG_ERROR;
-    }
 
     return CG_OK;
 }
